@@ -270,7 +270,7 @@ func (in *instance) key() string {
 		fmt.Fprintf(&b, "p%d,", e.state)
 	}
 	size, head, tail, count := in.aq.VerifShape()
-	fmt.Fprintf(&b, "|%d.%d.%d.%d", size, head, tail, count)
+	fmt.Fprintf(&b, "|%d.%d.%d.%d|%s", size, head, tail, count, in.aq.VerifIndex())
 	return b.String()
 }
 
@@ -301,7 +301,7 @@ func alphabetA() []op {
 // C13 entry point.
 func C13(c *core.Ctx) {
 	ops := alphabetA()
-	c.Rep.Bound = "alphabet A: all operation sequences to depth 4 (quick) / 5 (thorough) without de-duplication and BFS to depth 7/9 with de-duplication on (model list, ring geometry); alphabet B: capacity sweeps head offset 0..15 x 0..40 in flight x ack orders"
+	c.Rep.Bound = "alphabet A: all operation sequences to depth 4 (quick) / 5 (thorough) without de-duplication and BFS to depth 7/9 with de-duplication on (model list, ring geometry, identifier index); alphabet B: capacity sweeps head offset 0..15 x 0..40 in flight x ack orders"
 	c.Rep.Rule = fmt.Sprintf("HIST: breadth-first over histories of %d operations (register PUBLISH q1/q2/dup, SUBSCRIBE, UNSUBSCRIBE, PINGREQ over ids 1-3; acknowledge with each of the 7 ack types incl. unknown id 9; collect) on the real Ackqueue, compared step by step with a plain list; distinct = canonical (model list, ring size/head/tail/count)", len(ops))
 	run := func(hist []int) (string, string, int) {
 		in := newInstance(4)
